@@ -13,6 +13,8 @@ import os
 import numpy as np
 
 from vf import core
+from vf import callforms
+from vf import errorpaths
 from vf import solverlib as sl
 from vf.oracles import halfspace
 
@@ -255,6 +257,8 @@ def run(ctx):
         "1-3 sources each; order: 4 profile sets x grids x column heights, ladder n=8..64 (thorough ..128), every resolved non-constant non-Nyquist wavenumber judged separately; "
         "non-trivial: every closed-form case; order cases with >= 4 resolved modes and at least one judged pair; evaluations counts solver executions"
     )
+    callforms.run_solver_forms(ctx)
+    errorpaths.run(ctx, case_closed, [c for c in closed_cases(ctx.tier) if not c['footprint'] and c['levels'] == [0, 2, 5]][:2])
     ctx.run_cases(case_closed, closed_cases(ctx.tier), sub="closed-form")
     ctx.run_cases(case_mean_profile, [{"prof": p, "halo": h} for p in CONST for h in (0.0, 13.0)], sub="mean-profile", chunksize=1)
     ctx.run_cases(case_field_order, field_order_cases(ctx.tier), sub="order on returned fields, single and double precision", chunksize=1)
